@@ -4,6 +4,8 @@ import (
 	"context"
 	"encoding/json"
 	"fmt"
+	"os"
+	"path/filepath"
 	"reflect"
 	"sort"
 	"strings"
@@ -11,6 +13,7 @@ import (
 	"testing/synctest"
 
 	"github.com/jrhy/mast"
+	mastfile "github.com/jrhy/mast/persist/file"
 )
 
 var ctx = context.Background()
@@ -100,6 +103,7 @@ type World struct {
 	beforeOp func(i int, op *Op)
 	seams    *seamCounters
 	counted  map[string]int
+	mirrorDirs []string
 }
 
 const (
@@ -125,6 +129,18 @@ func NewWorld(t *testing.T, sc *Scenario) *World {
 		d := NewSimDisk(fmt.Sprintf("sim://d%d", i))
 		w.disks = append(w.disks, d)
 		w.installStoreMonitor(d)
+		if w.cfg.Mirror == "file" {
+			base := os.Getenv("VERIF_OUT")
+			if base == "" {
+				base = os.TempDir()
+			}
+			dir := filepath.Join(base, fmt.Sprintf("mirror-%d-%x-%d", os.Getpid(), sc.Seed, i))
+			os.RemoveAll(dir)
+			if os.MkdirAll(dir, 0o755) == nil {
+				d.mirror = mastfile.NewPersistForPath(dir)
+				w.mirrorDirs = append(w.mirrorDirs, dir)
+			}
+		}
 	}
 	w.cache = NewSimCache(w.cfg.Cache, w.ch)
 	if w.cache != nil && w.prop != "C02" && w.prop != "C11" {
@@ -395,6 +411,9 @@ func (w *World) run() {
 }
 
 func (w *World) finish() {
+	for _, dir := range w.mirrorDirs {
+		os.RemoveAll(dir)
+	}
 	for _, d := range w.disks {
 		w.st.Steps += d.LogLen()
 		for k, v := range d.Fired {
